@@ -138,7 +138,7 @@ CHECKS = {'C09': {'category': 'proof',
                       'tables (MichaelHashSet) + histories of all hash set / map variants judged by the verified checker',
          'text': 'C14_splitlist_linearizable, C14_splitlist_bucket_table, C14_splitlist_bucket_sees, C14_splitlist_growth, C14_cfg64_hyp; C14_feldman_linearizable, C14_feldman_expand_publish (an '
                  'expansion changes no lookup; the moved item is in the new array node before it is published), C14_feldman_on_path, C14_feldman_no_duplicate_keys hold for every schedule, thread '
-                 'count and key set (Feldman under PathHyp: equal-length injective hash paths, which C28 proves of the real splitter). Both real containers are replayed against their machines. '
+                 'count and key set (Feldman under PathHyp: equal-length injective hash paths, which C28 proves of the real splitter and which is proved for every configuration the harness replays: C14_feldman_harness_hyp_all, C14_feldman_linearizable_harness). Both real containers are replayed against their machines. '
                  'MichaelHashSet over MichaelList / LazyList: locality (Base/Locality) + C14_table_of_linearizable_buckets + the C13 list theorems, at the level of histories. All variants (RCU '
                  'forms, maps, split lists over Lazy / Iterable, colliding hashes, the *_with overloads) are also decided by histories on explored schedules.',
          'note': 'SC interleavings only (threads serialised by a baton at every atomic operation); memory orders not modelled; explored schedules only for the history/oracle/trace ties; Lean kernel '
